@@ -514,28 +514,44 @@ def abstract(e, limit=25):
             st.extend(y.children())
         return n
     memo = {}
+    fresh_for = {}
+
+    def absreal(c):
+        if z3.is_real(c) and size(c) > limit:
+            # the same sub-term always gets the same fresh variable
+            if c.get_id() not in fresh_for:
+                _abs_n[0] += 1
+                fresh_for[c.get_id()] = (z3.Real(f"abs!{_abs_n[0]}"), c)
+            return fresh_for[c.get_id()][0]
+        return None
 
     def go(x):
         k = x.get_id()
         if k in memo:
-            return memo[k]
+            return memo[k][0]
         if z3.is_app(x) and x.num_args() > 0:
             dk = x.decl().kind()
-            ch = [go(c) for c in x.children()]
-            if dk in (z3.Z3_OP_ITE, z3.Z3_OP_DIV):
-                ch2 = []
-                for c in ch:
-                    if z3.is_real(c) and size(c) > limit:
-                        _abs_n[0] += 1
-                        ch2.append(z3.Real(f"abs!{_abs_n[0]}"))
-                    else:
-                        ch2.append(c)
-                ch = ch2
-            r = x.decl()(*ch)
+            if dk == z3.Z3_OP_ITE:
+                c0, a, b = x.children()
+                # operands of the comparison in the condition are abstracted with the same variables as the branches
+                if z3.is_app(c0) and c0.num_args() == 2 and all(z3.is_real(y) for y in c0.children()):
+                    ops = [absreal(y) if absreal(y) is not None else go(y) for y in c0.children()]
+                    c0n = c0.decl()(*ops)
+                else:
+                    c0n = go(c0)
+                an = absreal(a) if absreal(a) is not None else go(a)
+                bn = absreal(b) if absreal(b) is not None else go(b)
+                r = z3.If(c0n, an, bn)
+            elif dk == z3.Z3_OP_DIV:
+                ch = [absreal(c) if absreal(c) is not None else go(c) for c in x.children()]
+                r = x.decl()(*ch)
+            else:
+                r = x.decl()(*[go(c) for c in x.children()])
         else:
             r = x
-        memo[k] = r
+        memo[k] = (r, x)
         return r
+
     return go(e)
 
 
@@ -901,16 +917,18 @@ def uf_app(name, argsym, mk_axioms, rf=None):
     res = ENG.newvar(name)
     af = argsym.f
     if rf is None:
+        uf_ = bool(ENG.opts.get('underflow'))
         if name == 'exp':
-            rf = (0.0, True, 1.0 if (af[2] is not None and af[2] <= 0) else None, False)
+            strict = (not uf_) or (af[0] is not None and af[0] > UF_EXP)
+            rf = (0.0, strict, 1.0 if (af[2] is not None and af[2] <= 0) else None, False)
         elif name == 'sqrt':
             hi = None if af[2] is None else _sqrt_out(af[2], _up)
             lo = 0.0 if (af[0] is None or af[0] <= 0) else _sqrt_out(af[0], _down)
             rf = (lo, _sgn(af) == 'pos' if lo == 0.0 else af[1], hi, af[3] if hi is not None else False)
         elif name == 'cdf':
-            rf = (0.0, True, 1.0, True)
+            rf = (0.0, (not uf_) or (af[0] is not None and af[0] > UF_CDF), 1.0, not uf_)
         elif name == 'pdf':
-            rf = (0.0, True, 0.4, True)
+            rf = (0.0, (not uf_) or (af[0] is not None and af[2] is not None and af[0] > -UF_PDF and af[2] < UF_PDF), 0.4, True)
         else:
             rf = TOP
     ENG.lemmas[res.decl().name()] = (res, rf, len(ENG.axioms), len(str(arg)))
@@ -1013,9 +1031,25 @@ def ax_sqrt(a, r, lst):
     ENG.add_axiom(r * r == a, 0)
 
 
+# float underflow thresholds (opts['underflow']): below them the float result may be exactly 0
+UF_EXP, UF_CDF, UF_PDF = -745.0, -38.4, 38.5
+
+
+def _pos_axiom(a, r, thr, two_sided=False):
+    """r > 0 -- or, when float underflow is modelled (C08), r >= 0 and r > 0 only above the underflow threshold"""
+    if not ENG.opts.get('underflow'):
+        ENG.add_axiom(r > 0, 0)
+        return
+    ENG.add_axiom(r >= 0, 0)
+    if two_sided:
+        ENG.add_axiom(z3.Implies(z3.And(a < rv(thr), a > rv(-thr)), r > 0), 0)
+    else:
+        ENG.add_axiom(z3.Implies(a > rv(thr), r > 0), 0)
+
+
 def ax_exp(a, r, lst):
     A = ENG.add_axiom
-    A(r > 0, 0)
+    _pos_axiom(a, r, UF_EXP)
     A(z3.Implies(a < 0, r < 1))
     A(z3.Implies(a > 0, r > 1))
     A(z3.Implies(a == 0, r == 1))
@@ -1029,8 +1063,8 @@ def ax_exp(a, r, lst):
 
 def ax_cdf(a, r, lst):
     A = ENG.add_axiom
-    A(r > 0, 0)
-    A(r < 1, 0)
+    _pos_axiom(a, r, UF_CDF)
+    A(r < 1, 0) if not ENG.opts.get('underflow') else A(r <= 1, 0)
     A(z3.Implies(a == 0, 2 * r == 1))
     A(z3.Implies(a > 0, 2 * r > 1))
     A(z3.Implies(a < 0, 2 * r < 1))
@@ -1048,7 +1082,7 @@ def ax_cdf(a, r, lst):
 
 def ax_pdf(a, r, lst):
     A = ENG.add_axiom
-    A(r > 0, 0)
+    _pos_axiom(a, r, UF_PDF, two_sided=True)
     A(r * 5 < 2, 0)
     for (a2, r2) in lst:
         A(z3.Implies(z3.Or(a == a2, a + a2 == 0), r == r2))
